@@ -378,6 +378,16 @@ func c03Modes(c *Ctx) {
 				}
 			}
 		}
+		if nSel == 0 {
+			// the other idiom: no "default to the disallowed sets, override on the allow-list edge", but each set is
+			// read on its own edge of the mode test (possibly handed to a matching helper)
+			gF, nF := modeEdge(fn, false)
+			offA, nsA := core.UnguardedSinks(fn, fieldUse(fn, "allowedIPs", "allowedNets"), gT)
+			offB, nsB := core.UnguardedSinks(fn, fieldUse(fn, "blockedIPs", "blockedNets"), gF)
+			if nF > 0 && nsA >= 2 && nsB >= 2 && len(offA) == 0 && len(offB) == 0 {
+				okSel, nSel = true, nsA+nsB
+			}
+		}
 		r.Check(okSel && nSel >= 4, "C03-D4", "isBlockedIP:collection-selection", p.FnPos(fn),
 			"the address is tested against the allowed sets exactly on the allow-list edge and against the disallowed sets otherwise", "the address is tested against the wrong collection for the mode")
 	}
@@ -686,7 +696,35 @@ func c03Entries(c *Ctx) {
 	}
 	okScan := false
 	var why string
+	// the scan may be a library search over the whole list (in isBlockedIP or a matching helper of the package)
+	scanFns := []*ssa.Function{ib}
+	for h := range core.StaticReach(ib, 2) {
+		if h != ib && core.PkgOf(h) == "dnsforward" {
+			scanFns = append(scanFns, h)
+		}
+	}
+	for _, sf := range scanFns {
+		for _, call := range core.Calls(sf) {
+			k := call.Key
+			if i := strings.IndexByte(k, '['); i > 0 {
+				k = k[:i]
+			}
+			if (k == "slices.IndexFunc" || k == "slices.ContainsFunc") && len(call.Common.Args) == 2 && strings.Contains(call.Arg(0).Type().String(), "netip.Prefix") {
+				okScan = true
+			}
+		}
+		if sf != ib && !okScan {
+			for _, h := range loopHeaders(sf) {
+				if strings.HasPrefix(h.Comment, "rangeindex") && len(core.CallsTo(sf, "(net/netip.Prefix).Contains")) > 0 {
+					ib = sf // the loop lives in the helper: judge it there
+				}
+			}
+		}
+	}
 	for _, h := range loopHeaders(ib) {
+		if okScan {
+			break
+		}
 		if !strings.HasPrefix(h.Comment, "rangeindex") {
 			why = "the scan of the networks is not a plain range loop"
 			continue
